@@ -106,9 +106,10 @@ def parseSRet (s : String) : Option Spec.SRet :=
 
 def iter (n : Nat) (f : α → α) (a : α) : α := Nat.rec a (fun _ x => f x) n
 
-/-- handler steps while it is running, at most `n` -/
-def hsteps (n : Nat) (s : St) : St :=
-  iter n (fun s => if s.hst = .running then (hstep s).getD s else s) s
+/-- handler steps while it is running, at most `n` (`pinned`: the `Flush` of the code before the fix) -/
+def hsteps (n : Nat) (s : St) (pinned : Bool := false) : St :=
+  iter n (fun s => if s.hst = .running then
+    ((if pinned then stepPinned reasonBytes s .h else hstep s)).getD s else s) s
 
 def stepD (s : St) (l : Label) : St := (step reasonBytes s l).getD s
 
@@ -120,17 +121,18 @@ structure RestOut where
   returned : Bool
   fin : String := "same"
   branch : String := ""
+  pinned : Bool := false
 
 def RestOut.render (o : RestOut) (withFin : Bool) : String :=
   s!"sret={o.sret} atret={showView (Spec.ofRec o.atRet)} results={showResults o.log o.returned} final={showView (Spec.ofRec o.final)}"
-    ++ (if withFin then s!" fin={o.fin}" else "")
+    ++ (if withFin then s!" fin={o.fin} leak=0" else "")
 
 /-- wrapped path: `j` handler steps, then (if the handler is still running) the expiry and the timeout
 branch, else the done / panic branch; then the rest of the handler. -/
-def simWrapped (script : List Act) (kind : Option Kind) (j : Nat) : RestOut :=
+def simWrapped (script : List Act) (kind : Option Kind) (j : Nat) (pinned : Bool := false) : RestOut :=
   let s0 := St.init script
   let n := script.length + 1
-  let s1 := hsteps (match kind with | none => n | some _ => j) s0
+  let s1 := hsteps (match kind with | none => n | some _ => j) s0 pinned
   let s2 : St × String × String :=
     match s1.hst with
     | .running =>
@@ -147,8 +149,9 @@ def simWrapped (script : List Act) (kind : Option Kind) (j : Nat) : RestOut :=
       let s := stepD s1 .mPanic
       let s := match kind with | some k => stepD s (.env k) | none => s
       (s, (match s.pc with | .panicked v => s!"panic:{v}" | _ => "?"), "panic-branch")
-  let s3 := hsteps n s2.1
-  { sret := s2.2.1, atRet := s2.1.w, final := s3.w, log := s3.log, returned := s3.hst = .finished, branch := s2.2.2 }
+  let s3 := hsteps n s2.1 pinned
+  { sret := s2.2.1, atRet := s2.1.w, final := s3.w, log := s3.log, returned := s3.hst = .finished, branch := s2.2.2,
+    pinned := pinned }
 
 /-- unwrapped path (exempt request or duration ≤ 0): the handler runs on ServeHTTP's goroutine, straight on
 the real writer; the expiry has no effect. -/
@@ -167,8 +170,8 @@ def simDirect (script : List Act) (kind : Option Kind) (j : Nat) : RestOut :=
   { sret := if endedEarly then how else "blocked", atRet := a.1, final := b.1, log := b.2.1,
     returned := pan.isNone, fin := if endedEarly then "same" else how, branch := "direct" }
 
-def simRest (script : List Act) (kind : Option Kind) (j : Nat) (hdr : ReqHdr) (dur : Int) : RestOut :=
-  if restWraps dur hdr then simWrapped script kind j else simDirect script kind j
+def simRest (script : List Act) (kind : Option Kind) (j : Nat) (hdr : ReqHdr) (dur : Int) (pinned : Bool := false) : RestOut :=
+  if restWraps dur hdr then simWrapped script kind j pinned else simDirect script kind j
 
 /-! ### deadlines -/
 
@@ -185,9 +188,17 @@ def parseParent (s : String) : Option Deadline :=
 
 def obsOf (l : Line) (k : String) : String := kvStr l.obs k "?"
 
-def runRestLine (r : Report) (sec : Nat) (l : Line) (gated : Bool) : Report := Id.run do
+/-- `eng`: the engine of the section for `erest` lines (duration of the route's middleware from the engine model) -/
+def runRestLine (r : Report) (sec : Nat) (l : Line) (gated : Bool) (eng : Option Eng := none) : Report := Id.run do
   let mut r := r
   let parsed : Option (Option Kind × Nat × ReqHdr × Int × List Act × Bool) :=
+    match eng with
+    | some e =>
+      match l.op with
+      | _ :: g :: kind :: k :: hdr :: acts => do
+        pure ((← parseKind kind), (← k.toNat?), (← parseHdr hdr), (← e.duration (← g.toNat?)), (← parseActs acts), kind = "timer")
+      | _ => none
+    | none =>
     if gated then
       match l.op with
       | _ :: kind :: k :: hdr :: dur :: acts => do
@@ -204,36 +215,57 @@ def runRestLine (r : Report) (sec : Nat) (l : Line) (gated : Bool) : Report := I
     let impl := joinSp l.obs
     let wrapped := restWraps dur hdr
     let n := script.length + 1
-    -- correspondence
-    let cands : List RestOut :=
-      if gated && !timer then [simRest script kind k hdr dur]
-      else if gated then (List.range (min k n + 1)).reverse.map (fun j => simRest script kind j hdr dur)
-      else (List.range (n + 1)).map (fun j => simRest script kind j hdr dur)
+    -- correspondence.  For scripts with `Flush` the model of the pinned `Flush` (before
+    -- fixes/C04-flush-after-timeout.patch) is accepted next to the fixed one; which one matched is counted.
+    let js : List Nat :=
+      if gated && !timer then [k]
+      else if gated then (List.range (min k n + 1)).reverse
+      else List.range (n + 1)
+    let candsOf (pinned : Bool) : List RestOut := js.map (fun j => simRest script kind j hdr dur pinned)
+    let cands : List RestOut := candsOf false ++ (if Spec.hasFlush script && wrapped then candsOf true else [])
+    let pfx := if eng.isSome then "eng-" else if gated then "rest-" else "race-"
     match cands.find? (fun c => c.render gated = impl) with
     | some c =>
-      r := r.addCover (if gated then "rest-" ++ c.branch else "race-" ++ c.branch)
-      if timer then r := r.addCover "rest-real-timer"
-      if !gated then r := r.addCover s!"race-expiry-at-{(cands.findIdx? (fun c => c.render gated = impl)).getD 0}"
+      r := r.addCover (pfx ++ c.branch)
+      if timer then r := r.addCover (pfx ++ "real-timer")
+      let panicked := c.log.any (fun x => match x with | .panicked _ => true | _ => false)
+      if panicked && c.branch = "timeout-branch" then r := r.addCover "panic-after-timeout-branch-swallowed"
+      if panicked && c.branch = "panic-branch" then r := r.addCover "panic-before-timeout-reraised"
+      if c.log.any (fun x => x == .panicked 999999) then r := r.addCover "panic-ErrAbortHandler"
+      if panicked && c.branch = "panic-branch" && kind.isSome then r := r.addCover "panic-then-expiry-harmless"
+      if !gated then r := r.addCover s!"race-expiry-at-{((candsOf false).findIdx? (fun c => c.render gated = impl)).getD 0}"
+      if Spec.hasFlush script && wrapped then
+        let f := (candsOf false).any (fun c => c.render gated = impl)
+        let p := (candsOf true).any (fun c => c.render gated = impl)
+        if f && !p then r := r.addCover "flush-only-explained-by-fixed-Flush"
+        if p && !f then r := r.addCover "flush-only-explained-by-pinned-Flush"
     | none =>
       let m := match cands.head? with | some c => c.render gated | none => "?"
       r := r.mismatch sec l.idx m impl
     if Spec.hasFlush script then r := r.addCover "script-with-flush"
     if (Spec.firstPanic script false).isSome then r := r.addCover "script-panics"
     if !wrapped then r := r.addCover (if dur ≤ 0 then "unwrapped-duration<=0" else "exempt-request")
-    -- monitor: the property on the implementation's own observation (wrapped path, Flush-free scripts)
-    if wrapped && !Spec.hasFlush script then
+    -- monitor: the property on the implementation's own observation (wrapped path)
+    if wrapped then
       match parseSRet (obsOf l "sret"), parseView (obsOf l "atret"), parseView (obsOf l "final"),
             parseResults (obsOf l "results") with
       | some sret, some atRet, some final, some (results, _) =>
-        let o : Spec.Obs := { script := script, kind := kind, firedAt := if gated then some k else none,
+        let o : Spec.Obs := { script := script, kind := kind,
+                              firedLo := if gated && !timer then k else 0, firedHi := if gated then k else n,
+                              gated := gated && !timer,
                               sret := sret, atRet := atRet, final := final, results := results }
         for e in Spec.check reasonBytes o do
           r := r.violation sec l.idx s!"{e}: op=[{joinSp l.op}] impl=[{impl}]"
+          if e.startsWith "[known-class " then r := r.addCover ("known-" ++ (((e.splitOn "]").headD "").splitOn " ").getLastD "")
+        if gated && obsOf l "leak" ≠ "0" then
+          r := r.violation sec l.idx s!"a goroutine of the wrapper is left behind after the request and the work have ended (leak): op=[{joinSp l.op}] impl=[{impl}]"
         if atRet = Spec.timeout reasonBytes .deadline then r := r.addCover "saw-503"
         if atRet = Spec.timeout reasonBytes .canceled then r := r.addCover "saw-499"
         if results.any (· == .errTimeout) then r := r.addCover "saw-ErrHandlerTimeout"
+        if Spec.hasFlush script && atRet = Spec.completeF script && Spec.completes script false then
+          r := r.addCover "flush-complete-streamed-result"
       | _, _, _, _ => r := r.mismatch sec l.idx "parsable-observation" impl
-    else if !wrapped && dur > 0 then
+    else if dur > 0 then
       -- exempt request (websocket upgrade / event stream): the timeout must not touch it
       let expected := (simRest script kind k hdr dur).sret
       let refused : Bool := match parseResults (obsOf l "results") with
@@ -243,17 +275,6 @@ def runRestLine (r : Report) (sec : Nat) (l : Line) (gated : Bool) : Report := I
         r := r.violation sec l.idx s!"exempt request (websocket/event-stream): a Write was refused with ErrHandlerTimeout: op=[{joinSp l.op}] impl=[{impl}]"
       if expected = "blocked" && obsOf l "sret" ≠ "blocked" then
         r := r.violation sec l.idx s!"exempt request (websocket/event-stream) was cut off by the timeout: op=[{joinSp l.op}] impl=[{impl}]"
-    else if wrapped then
-      -- Flush is outside the property's quantified behaviours: count what it does, never alarm
-      match parseView (obsOf l "atret"), parseView (obsOf l "final") with
-      | some atRet, some final =>
-        if final ≠ atRet then r := r.addCover "flush-changed-response-after-return"
-        match kind with
-        | some kd =>
-          if atRet ≠ Spec.timeout reasonBytes kd ∧ !(Spec.completes script false && atRet = Spec.complete script) then
-            r := r.addCover "flush-mixture-observed"
-        | none => pure ()
-      | _, _ => pure ()
     return r
 
 def runDlLine (r : Report) (sec : Nat) (l : Line) : Report :=
@@ -452,6 +473,118 @@ def runDlSelLine (r : Report) (sec : Nat) (l : Line) : Report :=
     | _, _, _, _ => r.mismatch sec l.idx "bad-op" (joinSp l.op)
   | _ => runDlLine r sec l
 
+
+
+/-! ### Hijack lines: `hij <sup|nosup> <kind> <before|after>` => `hijack=<ok|refused|unsupported>` -/
+
+def showHij : HijRes → String
+  | .ok => "ok"
+  | .refused => "refused"
+  | .unsupported => "unsupported"
+
+def runHijLine (r : Report) (sec : Nat) (l : Line) : Report :=
+  match l.op with
+  | ["hij", sup, kindTok, whenTok] =>
+    match parseKind kindTok with
+    | some (some k) =>
+      if (sup ≠ "sup" && sup ≠ "nosup") || (whenTok ≠ "before" && whenTok ≠ "after") then
+        r.mismatch sec l.idx "bad-op" (joinSp l.op)
+      else
+        let supported := sup = "sup"
+        -- the state of the timeoutWriter at the moment of the Hijack: the timeout branch has run or not
+        let s0 := St.init []
+        let s1 := if whenTok = "after" then
+          stepD (stepD (stepD (stepD (stepD s0 (.env k)) .mTimeout) .mAdv) .mAdv) .mAdv else s0
+        let fixed := "hijack=" ++ showHij (hijack s1.tw supported)
+        let pinned := "hijack=" ++ showHij (hijackPinned s1.tw supported)
+        let impl := joinSp l.obs
+        let r := r.addCover s!"hijack-{sup}-{whenTok}"
+        let r := if impl = fixed then (if fixed ≠ pinned then r.addCover "hijack-only-explained-by-fixed-Hijack" else r)
+          else if impl = pinned then r.addCover "hijack-only-explained-by-pinned-Hijack"
+          else r.mismatch sec l.idx fixed impl
+        -- monitor: after the timeout the connection must not be handed to the work
+        if whenTok = "after" && obsOf l "hijack" = "ok" then
+          r.violation sec l.idx s!"[known-class hijack-after-timeout] Hijack after the timeout handed the connection to the work: op=[{joinSp l.op}] impl=[{impl}]"
+        else if whenTok = "after" && obsOf l "hijack" ≠ "refused" && obsOf l "hijack" ≠ "unsupported" then
+          r.violation sec l.idx s!"Hijack after the timeout neither refused nor unsupported: op=[{joinSp l.op}] impl=[{impl}]"
+        else r
+    | _ => r.mismatch sec l.idx "bad-op" (joinSp l.op)
+  | _ => r.mismatch sec l.idx "bad-op" (joinSp l.op)
+
+/-! ### rest engine wiring (sections `wrapper=eng`) -/
+
+def parseRouteOpt (s : String) : Option RouteOpt :=
+  if s = "sse" then some .sse
+  else if s = "prio" || s = "mb" then some .other
+  else if s.startsWith "t" then (s.drop 1).toInt?.map (fun ms => RouteOpt.timeout (ms * 1000000))
+  else none
+
+def parseGroups (s : String) : Option (List (List RouteOpt)) :=
+  (s.splitOn ",").mapM fun g => if g = "-" then some [] else (g.splitOn "+").mapM parseRouteOpt
+
+def parseMw : String → Option MwMode
+  | "on" => some .on
+  | "off" => some .off
+  | "chain" => some .chain
+  | _ => none
+
+structure EngSec where
+  eng    : Eng
+  groups : List (List RouteOpt)
+  global : Int
+  cfg    : String
+
+def parseEng (cfg : List String) : Option EngSec := do
+  let global ← (← kv? cfg "global").toInt?
+  let mw ← parseMw (← kv? cfg "mw")
+  let groups ← parseGroups (← kv? cfg "groups")
+  pure { eng := Eng.build global mw groups, groups := groups, global := global, cfg := joinSp cfg }
+
+def groupClass (opts : List RouteOpt) : String :=
+  let hasT := opts.any (fun o => match o with | .timeout _ => true | _ => false)
+  let hasS := opts.any (fun o => o == .sse)
+  if hasT && hasS then (if groupTimeout opts = 0 then "timeout-then-sse" else "sse-then-timeout")
+  else if hasS then "sse-only"
+  else if hasT then (if groupTimeout opts > 0 then "own-timeout" else "own-timeout<=0")
+  else "no-option"
+
+def runEngLine (r : Report) (sec : Nat) (l : Line) (es : EngSec) : Report :=
+  let ms (x : Int) : Int := x * 1000000
+  match l.op with
+  | ["edl", g, p, hdr] =>
+    match g.toNat?, parseParent p, parseHdr hdr with
+    | some gi, some parent, some h =>
+      match es.eng.duration gi, es.groups[gi]? with
+      | some dur, some opts =>
+        let own := groupTimeout opts
+        let dl := restDeadline dur h (parent.map ms) 0
+        let model := "dl=" ++ dlClassT (parent.map ms) dl (dur / 1000000)
+        let impl := joinSp l.obs
+        let wraps := restWraps dur h
+        let others := (es.groups.zipIdx.filter (fun p => p.2 ≠ gi)).map (fun p => groupTimeout p.1)
+        let r := r.addCover ("eng-group-" ++ groupClass opts)
+        let r := r.addCover ("eng-" ++ (model.splitOn "@").headD "" ++ (if wraps then "-wrapped" else "-unwrapped"))
+        let r := if es.eng.mw ≠ .on then r.addCover "eng-middleware-off-or-custom-chain" else r
+        let r := if wraps && own ≤ 0 && others.any (fun t => t > ms es.global) then r.addCover "eng-global-next-to-longer-route" else r
+        let r := if wraps && own > 0 && own < ms es.global then r.addCover "eng-route-shorter-than-global" else r
+        let r := if wraps && own > ms es.global then r.addCover "eng-route-longer-than-global" else r
+        let r := if wraps && others.any (fun t => t > 0 && t < dur) then r.addCover "eng-next-to-shorter-route" else r
+        let r := if model ≠ impl then r.mismatch sec l.idx model impl else r
+        -- monitor: the property's timeout of this route is its own if positive, else the global one
+        let specT := Spec.routeTimeout own es.global
+        let specWraps := es.eng.mw == .on && restWraps specT h
+        if dlViolates (obsOf l "dl") parent specWraps (specT / 1000000) then
+          r.violation sec l.idx s!"deadline seen by the work is later than min(caller's deadline, now+timeout) of its route (own timeout if set, else the global one): cfg=[{es.cfg}] op=[{joinSp l.op}] impl=[{impl}]"
+        else r
+      | _, _ => r.mismatch sec l.idx "bad-op(no such group)" (joinSp l.op)
+    | _, _, _ => r.mismatch sec l.idx "bad-op" (joinSp l.op)
+  | ["emax"] =>
+    let model := s!"max={es.eng.timeout / 1000000}"
+    let impl := joinSp l.obs
+    let r := r.addCover "eng-max"
+    if model ≠ impl then r.mismatch sec l.idx model impl else r
+  | _ => r.mismatch sec l.idx "bad-op" (joinSp l.op)
+
 def runSection (r : Report) (s : Section) : Report :=
   s.lines.foldl (fun r l =>
     let r := { r with ops := r.ops + 1 }
@@ -459,6 +592,15 @@ def runSection (r : Report) (s : Section) : Report :=
     | some "rest" => runRestLine r s.idx l true
     | some "race" => runRestLine r s.idx l false
     | some "dl" => runDlSelLine r s.idx l
+    | some "hij" => runHijLine r s.idx l
+    | some "edl" | some "emax" =>
+      (match parseEng s.cfg with
+        | some es => runEngLine r s.idx l es
+        | none => r.mismatch s.idx l.idx "bad-cfg" (joinSp s.cfg))
+    | some "erest" =>
+      (match parseEng s.cfg with
+        | some es => runRestLine r s.idx l true (some es.eng)
+        | none => r.mismatch s.idx l.idx "bad-cfg" (joinSp s.cfg))
     | some "sel" => runSelLine r s.idx l
     | some "selrace" => runSelRaceLine r s.idx l
     | _ => r.mismatch s.idx l.idx "bad-op" (joinSp l.op)) r
